@@ -717,3 +717,106 @@ def user_names(p):
             seen.add(x)
             out.append(x)
     return out
+
+
+# ---- near-miss mutants (C03): type-changing mutations of a well-typed program ---------------------------
+
+def all_nodes(n, path=()):
+    out = [(path, n)]
+    for key, ch in children(n):
+        out += all_nodes(ch, path + (key,))
+    return out
+
+
+def replace_at(n, path, new):
+    if not path:
+        return new
+    key = path[0]
+    ch = dict((k, c) for k, c in children(n))[key]
+    return replace_child(n, key, replace_at(ch, path[1:], new))
+
+
+def mutate_node(r, n):
+    """returns a (probably) ill-typed variant of node n, or None"""
+    k = n.kind
+    opts = []
+    if k == "tup":
+        opts += ["tup_drop", "tup_add"]
+    if k == "proj":
+        opts += ["proj_far", "proj_scalar"]
+    if k in ("call", "app"):
+        opts += ["arg_drop", "arg_add", "arg_tuple"]
+    if k == "var":
+        opts += ["unbound", "apply_var"]
+    if k == "lit":
+        opts += ["lit_tuple", "apply_lit"]
+    if k == "if":
+        opts += ["arm_tuple"]
+    if k == "bin":
+        opts += ["operand_tuple", "operand_lambda"]
+    if k == "lett":
+        opts += ["pat_arity"]
+    if k == "mem":
+        opts += ["mem_tuple"]
+    if k == "delay":
+        opts += ["delay_tuple"]
+    if not opts:
+        return None, None
+    m = r.pick(opts)
+    one = Node("lit", "1.0")
+    tup2 = Node("tup", [Node("lit", "1.0"), Node("lit", "2.0")])
+    if m == "tup_drop" and len(n.a[0]) > 1:
+        return m, Node("tup", list(n.a[0][:-1]))
+    if m == "tup_add":
+        return m, Node("tup", list(n.a[0]) + [one])
+    if m == "proj_far":
+        return m, Node("proj", n.a[0], n.a[1] + 5)
+    if m == "proj_scalar":
+        return m, Node("proj", one, 0)
+    if m == "arg_drop" and len(n.a[1]) > 0:
+        return m, (Node("call", n.a[0], list(n.a[1][:-1]), n.a[2]) if k == "call" else Node("app", n.a[0], list(n.a[1][:-1])))
+    if m == "arg_add":
+        return m, (Node("call", n.a[0], list(n.a[1]) + [one], n.a[2]) if k == "call" else Node("app", n.a[0], list(n.a[1]) + [one]))
+    if m == "arg_tuple" and len(n.a[1]) > 0:
+        args = [tup2] + list(n.a[1][1:])
+        return m, (Node("call", n.a[0], args, n.a[2]) if k == "call" else Node("app", n.a[0], args))
+    if m == "unbound":
+        return m, Node("var", "nosuchname")
+    if m == "apply_var":
+        return m, Node("app", n, [one])
+    if m == "lit_tuple":
+        return m, tup2
+    if m == "apply_lit":
+        return m, Node("app", n, [one])
+    if m == "arm_tuple":
+        return m, Node("if", n.a[0], n.a[1], tup2)
+    if m == "operand_tuple":
+        return m, Node("bin", n.a[0], tup2, n.a[2])
+    if m == "operand_lambda":
+        return m, Node("bin", n.a[0], n.a[1], Node("lam", ["q"], Node("var", "q")))
+    if m == "pat_arity":
+        return m, Node("lett", list(n.a[0]) + ["extra"], n.a[1], n.a[2])
+    if m == "mem_tuple":
+        return m, Node("mem", tup2, n.a[1])
+    if m == "delay_tuple":
+        return m, Node("delay", n.a[0], tup2, n.a[2], n.a[3])
+    return None, None
+
+
+def mutant(p, r):
+    """one near-miss mutant of program p: (mutation name, Prog) or (None, None)"""
+    fns = p.fns + [p.dsp]
+    for _ in range(8):
+        fi = r.below(len(fns))
+        f = fns[fi]
+        nodes = all_nodes(f.body)
+        path, n = nodes[r.below(len(nodes))]
+        name, new = mutate_node(r, n)
+        if new is None:
+            continue
+        body = replace_at(f.body, path, new)
+        nf = Fn(f.name, f.params, f.ptypes, f.ret, body, f.uses_self, f.stateful)
+        if fi == len(p.fns):
+            return name, Prog(p.globals, p.fns, nf)
+        return name, Prog(p.globals, p.fns[:fi] + [nf] + p.fns[fi + 1:], p.dsp)
+    return None, None
